@@ -160,7 +160,7 @@ func genC01(t *rapid.T) C01Case {
 		if rapid.IntRange(0, 2).Draw(t, "hasconn") == 0 {
 			var toks []string
 			// incl. names of fields the proxy itself adds: the client's copy is hop-by-hop then, the proxy's own is not
-			for _, k := range []string{"X-Hop-1", "x-hop-2", "keep-alive", "TE", "X-Absent", "Via", "x-forwarded-for", "X-Forwarded-Host", "User-Agent", "accept-encoding"} {
+			for _, k := range []string{"X-Hop-1", "x-hop-2", "keep-alive", "TE", "X-Absent", "Via", "x-forwarded-for", "X-Forwarded-Host", "User-Agent", "accept-encoding", "Upgrade"} {
 				if rapid.IntRange(0, 2).Draw(t, "nom") == 0 {
 					toks = append(toks, k)
 				}
@@ -553,11 +553,11 @@ func compareC01(c C01Case, s sentReq, got *Msg, clientIP string) (fails []vstat.
 			continue
 		}
 		switch {
-		case hopByHop[ln] && !(upgrade && ln == "upgrade"):
+		case upgrade && ln == "upgrade": // an upgrade is being requested: Upgrade travels on
+		case hopByHop[ln]:
 			fails = append(fails, vstat.Failf(key("hop-by-hop-forwarded"), "hop-by-hop field %q forwarded with %q", ln, hv))
 		case nominated[ln]:
 			fails = append(fails, vstat.Failf(key("nominated-forwarded"), "Connection-nominated field %q forwarded with %q", ln, hv))
-		case upgrade && ln == "upgrade":
 		default:
 			fails = append(fails, vstat.Failf(key("invented-field"), "next hop got field %q=%q that the client did not send", ln, hv))
 		}
